@@ -180,7 +180,8 @@ PROPS = {
             'declaration rule (classical_declaration_statement_to_asg_stmt): the stored initializer has the declared type up to const, or is an explicit cast to exactly the declared type, or IncompatibleTypesError was reported last (carve-out: const / carve-out-typed non-literal values of another tower type)',
             'assignment rule (assignment_stmt_to_asg_stmt): after the right-hand side, the target is resolved once, at most one type diagnostic follows, the stored value has exactly the variable type or is an explicit cast to it (carve-out: integer literal into a non-uint variable), MutateConstError is appended iff the target is a const symbol',
         ],
-        not_decided=['"a kind-lowering conversion / a narrowing of a non-constant is ALWAYS diagnosed" as a separate clause (it follows for the paths that reach promote_types / can_cast_literal from their contracts, but is not stated end to end)',
+        not_decided=['"a width narrowing of a non-constant value is always diagnosed" as a separate clause (kind lowering is decided; narrowing follows for non-const values from the declaration / assignment rules and C20, const values are the recorded carve-out)',
+                     'kind lowering when the value is an integer-literal expression assigned to / declared as uint (decided by the sign of the literal; that an integer literal expression is typed int is not an invariant of TExpr)',
                      'types of call / index / range expressions beyond what their constructors assign'],
         explanation='Verus.',
     ),
